@@ -1,6 +1,299 @@
 import SR.Drv.Loop
-/-! Driver commands for C17 (stub). -/
+import SR.Util.IdCodec
+import SR.Runtime.Loop
+/-!
+Driver commands for C17.
+
+Model side: `codec-id`, `codec-addr`, `codec-sweep`, `loop-out`.
+Oracle side: `o-codec`, `o-codec-id` (declarative reading of the codec on implementation outputs),
+`o-trace` (the acceptance predicate of `SR.Loop` replaying the log of a real `spawn()` run).
+-/
 namespace SR.Drv.C17
+open SR SR.IdCodec SR.Loop
+
+/-! ### wire helpers -/
+
+def addr? : SExp → Option Addr
+  | .list [a, b, c, d, p] => do pure ⟨← a.nat?, ← b.nat?, ← c.nat?, ← d.nat?, ← p.nat?⟩
+  | _ => none
+
+def addrStr (a : Addr) : String := s!"({a.o0} {a.o1} {a.o2} {a.o3} {a.port})"
+
+def hexVal (c : Char) : Option Nat :=
+  if '0' ≤ c ∧ c ≤ '9' then some (c.toNat - '0'.toNat)
+  else if 'a' ≤ c ∧ c ≤ 'f' then some (c.toNat - 'a'.toNat + 10)
+  else none
+
+def hexDecode : List Char → Option (List Nat)
+  | [] => some []
+  | a :: b :: r => do
+    let x ← hexVal a; let y ← hexVal b; let rest ← hexDecode r
+    pure ((x * 16 + y) :: rest)
+  | _ => none
+
+/-- bytes are a hex atom; `-` is the empty datagram -/
+def bytes? : SExp → Option Bytes
+  | .atom "-" => some []
+  | .atom s => hexDecode s.toList
+  | _ => none
+
+def hexDigit (n : Nat) : Char := if n < 10 then Char.ofNat (48 + n) else Char.ofNat (87 + n)
+def bytesStr (b : Bytes) : String :=
+  if b.isEmpty then "-" else String.ofList (b.flatMap fun x => [hexDigit (x / 16), hexDigit (x % 16)])
+
+/-! ### the harness's message codec (`harness/src/bin/c17.rs`: `ser`, `de`), messages are `u32`
+
+`ser m` = `Err` when `m % 7 = 6`, else the ASCII bytes of `M<decimal>`;
+`de b`  = `b` is `M` followed by 1..10 ASCII digits whose value fits a `u32`. -/
+
+def serMsg (m : Nat) : Option Bytes :=
+  if m % 7 = 6 then none else some (77 :: (toString m).toList.map Char.toNat)
+
+def deMsg (b : Bytes) : Option Nat :=
+  match b with
+  | 77 :: ds =>
+    if ds.isEmpty || ds.length > 10 || !ds.all (fun d => 48 ≤ d && d ≤ 57) then none
+    else
+      let v := ds.foldl (fun acc d => acc * 10 + (d - 48)) 0
+      if v < 4294967296 then some v else none
+  | _ => none
+
+/-- the log's clock is CLOCK_MONOTONIC in nanoseconds -/
+def cfgOf (id : Nat) : Cfg Nat :=
+  { id := id, ser := serMsg, de := deMsg,
+    never := 3600 * 24 * 365 * 500 * 1000000000, chooseSpan := 10 * 1000000000 }
+
+/-! ### log decoding -/
+
+abbrev E := Ev Nat Nat Nat Nat
+abbrev C' := Cmd Nat Nat Nat
+
+def cmd? : SExp → Option C'
+  | .list [.atom "send", d, m] => do pure (.send (← d.nat?) (← m.nat?))
+  | .list [.atom "set", k, lo, hi] => do pure (.set (← k.nat?) (← lo.nat?) (← hi.nat?))
+  | .list [.atom "cancel", k] => do pure (.cancel (← k.nat?))
+  | .list [.atom "choose", .atom key, vs] => do pure (.choose key (← vs.nats?))
+  | _ => none
+
+/-- a logged handler call; `msg` still lacks its datagram -/
+inductive Entry where
+  | start (t st : Nat) (cmds : List C')
+  | msg (t stIn src m st : Nat) (cmds : List C')
+  | timeout (t stIn k st : Nat) (cmds : List C')
+  | random (t stIn r st : Nat) (cmds : List C')
+
+def entry? : SExp → Option Entry
+  | .list [.atom "start", t, st, cs] => do pure (.start (← t.nat?) (← st.nat?) (← cs.listOf? cmd?))
+  | .list [.atom "msg", t, i, src, m, st, cs] => do
+    pure (.msg (← t.nat?) (← i.nat?) (← src.nat?) (← m.nat?) (← st.nat?) (← cs.listOf? cmd?))
+  | .list [.atom "timeout", t, i, k, st, cs] => do
+    pure (.timeout (← t.nat?) (← i.nat?) (← k.nat?) (← st.nat?) (← cs.listOf? cmd?))
+  | .list [.atom "random", t, i, r, st, cs] => do
+    pure (.random (← t.nat?) (← i.nat?) (← r.nat?) (← st.nat?) (← cs.listOf? cmd?))
+  | _ => none
+
+def Entry.time : Entry → Nat
+  | .start t _ _ => t | .msg t _ _ _ _ _ => t | .timeout t _ _ _ _ => t | .random t _ _ _ _ => t
+def Entry.cmds : Entry → List C'
+  | .start _ _ c => c | .msg _ _ _ _ _ c => c | .timeout _ _ _ _ c => c | .random _ _ _ _ c => c
+
+/-- a datagram on the wire: send time, source, destination, payload -/
+structure Dg where
+  t : Nat
+  src : Addr
+  dst : Addr
+  bytes : Bytes
+deriving Repr
+
+def dg? : SExp → Option Dg
+  | .list [t, s, d, b] => do pure ⟨← t.nat?, ← addr? s, ← addr? d, ← bytes? b⟩
+  | _ => none
+
+structure ActorLog where
+  id : Nat
+  log : List Entry
+
+def actor? : SExp → Option ActorLog
+  | .list [id, es] => do pure ⟨← id.nat?, ← es.listOf? entry?⟩
+  | _ => none
+
+/-- datagrams an actor's logged commands must have produced (`C17_send_faithful`), stamped with the
+time of the handler that issued them -/
+def sendsOf (a : ActorLog) : List Dg :=
+  a.log.flatMap fun e => e.cmds.filterMap fun c =>
+    match c with
+    | .send dst m => (serMsg m).map fun b => ⟨e.time, addrOf a.id, addrOf dst, b⟩
+    | _ => none
+
+/-- take the first element satisfying `p` out of a list -/
+def takeFirst {α} (p : α → Bool) : List α → Option (α × List α)
+  | [] => none
+  | x :: r => if p x then some (x, r) else (takeFirst p r).map fun (y, r') => (y, x :: r')
+
+/-- turn an actor's log into machine events, backing every `on_msg` by a datagram of the pool that
+was really sent to this actor (earliest unused one from the claimed source that deserializes to the
+claimed message and was sent no later than the handler ran) -/
+def eventsOf (pool : List Dg) : List Entry → Nat → Except String (List E × List Dg)
+  | [], _ => .ok ([], pool)
+  | e :: r, i =>
+    match e with
+    | .start t st cs => do
+      let (es, p) ← eventsOf pool r (i + 1)
+      pure (.start t st cs :: es, p)
+    | .timeout t si k st cs => do
+      let (es, p) ← eventsOf pool r (i + 1)
+      pure (.fire t (.timeout k) si st cs :: es, p)
+    | .random t si x st cs => do
+      let (es, p) ← eventsOf pool r (i + 1)
+      pure (.fire t (.random x) si st cs :: es, p)
+    | .msg t si src m st cs =>
+      match takeFirst (fun d => idOf d.src == src && deMsg d.bytes == some m && d.t ≤ t) pool with
+      | none => .error s!"on_msg-without-datagram entry={i} t={t} src={src} msg={m}"
+      | some (d, pool') => do
+        let (es, p) ← eventsOf pool' r (i + 1)
+        pure (.msg t d.src d.bytes si st cs :: es, p)
+
+/-- why the acceptance machine refused an event (diagnosis only; the verdict is `step = none`) -/
+def whyRejected (C : Cfg Nat) (s : St Nat Nat Nat Nat) : E → String
+  | .start t _ _ => if s.st.isSome then "on_start-twice" else if t < s.now then "clock-backwards" else "start-not-enabled"
+  | .msg t _ _ si _ _ =>
+    if s.st.isNone then "on_msg-before-on_start" else if s.st != some si then s!"state-not-threaded given={si} expected={s.st}"
+    else if t < s.now then "clock-backwards" else "msg-not-enabled"
+  | .fire t k si _ _ =>
+    if s.st.isNone then "handler-before-on_start" else if s.st != some si then s!"state-not-threaded given={si} expected={s.st}"
+    else if t < s.now then "clock-backwards"
+    else match s.ints.find? (fun e => e.1 == k) with
+      | none => "fired-while-not-armed"
+      | some (_, d) =>
+        if d ≥ t + C.never / 2 then s!"cancelled-timer-fired" else s!"fired-{d - t + 1}ns-before-lower-bound"
+  | _ => "not-enabled"
+
+/-- replay with diagnosis -/
+def replay (C : Cfg Nat) : St Nat Nat Nat Nat → List E → Nat → Except String (St Nat Nat Nat Nat)
+  | s, [], _ => .ok s
+  | s, e :: es, i =>
+    match step C s e with
+    | some s' => replay C s' es (i + 1)
+    | none => .error s!"rejected step={i} {whyRejected C s e}"
+
+def dgKey (d : Dg) : String := s!"{addrStr d.src}>{addrStr d.dst}:{bytesStr d.bytes}"
+
+def sortStrs (l : List String) : List String := (l.toArray.qsort (· < ·)).toList
+
+/-- multiset comparison of expected and observed datagrams, plus causality (observed no earlier than
+the handler that sent it; k-th copy matched with k-th copy) -/
+def compareOut (expected observed : List Dg) : Option String :=
+  let ek := sortStrs (expected.map dgKey)
+  let ok := sortStrs (observed.map dgKey)
+  if ek != ok then
+    let missing := ek.filter (fun k => ek.count k > ok.count k)
+    let extra := ok.filter (fun k => ok.count k > ek.count k)
+    some s!"datagrams-differ missing={missing.take 3} unexpected={extra.take 3}"
+  else
+    let bad := expected.any fun e =>
+      let es := (expected.filter (fun x => dgKey x == dgKey e)).map (·.t)
+      let os := (observed.filter (fun x => dgKey x == dgKey e)).map (·.t)
+      let es := (es.toArray.qsort (· < ·)).toList
+      let os := (os.toArray.qsort (· < ·)).toList
+      (es.zip os).any fun (a, b) => b < a
+    if bad then some "datagram-observed-before-its-handler" else none
+
+/-- the whole scenario: every actor's log is accepted, every `on_msg` is backed, every datagram the
+machine says was sent to an observer port was observed there exactly once and nothing else was,
+every deliverable datagram sent to an actor early enough was delivered exactly once -/
+def checkScenario (actors : List ActorLog) (psent precv : List Dg) (observers : List Addr)
+    (tEnd grace : Nat) : Option String :=
+  let allSends := actors.flatMap sendsOf
+  let rec go : List ActorLog → Nat → Option String
+    | [], _ => none
+    | a :: rest, i =>
+      let me := addrOf a.id
+      let pool := (psent ++ allSends).filter (fun d => d.dst == me)
+      match eventsOf pool a.log 0 with
+      | .error e => some s!"actor={i} {e}"
+      | .ok (evs, left) =>
+        match replay (relax (cfgOf a.id)) init (expand evs) 0 with
+        | .error e => some s!"actor={i} {e}"
+        | .ok s =>
+          let toObs := s.sent.filter (fun p => observers.contains p.1)
+          let mine := (sendsOf a).filter (fun d => observers.contains d.dst)
+          -- the machine's `sent` and the declarative `sendsOf` must agree (C17_send_faithful)
+          if toObs.map (fun p => (p.1, p.2)) != mine.map (fun d => (d.dst, d.bytes)) then
+            some s!"actor={i} internal-sent-mismatch"
+          else
+            match compareOut mine (precv.filter (fun d => d.src == me)) with
+            | some e => some s!"actor={i} {e}"
+            | none =>
+              let undelivered := left.filter fun d => (deMsg d.bytes).isSome && d.t + grace ≤ tEnd
+              if !a.log.isEmpty && !undelivered.isEmpty then
+                some s!"actor={i} datagram-not-delivered n={undelivered.length} first={(undelivered.head?.map dgKey).getD ""}"
+              else go rest (i + 1)
+  go actors 0
+
+/-- checksum of `idOf` over `n` consecutive ports and the number of exact round trips -/
+def sweep (a b c d : Nat) : Nat → Nat → Nat → Nat → Nat × Nat
+  | _, 0, h, ok => (h, ok)
+  | p, n + 1, h, ok =>
+    let id := idOf ⟨a, b, c, d, p⟩
+    let back := addrOf id
+    sweep a b c d (p + 1) n ((h * 1000003 + id) % 2147483647)
+      (if back.o0 == a && back.o1 == b && back.o2 == c && back.o3 == d && back.port == p then ok + 1 else ok)
+
 def handle : Drv.Handler
+  | "codec-id", [a] => do
+    let a ← addr? a
+    pure (toString (idOf a))
+  | "codec-addr", [id] => do
+    let id ← id.nat?
+    pure (addrStr (addrOf id))
+  -- checksum of idOf over all ports lo..hi-1 of one ip (and of the round trip)
+  | "codec-sweep", [ip, lo, hi] => do
+    let ip ← ip.nats?
+    let lo ← lo.nat?; let hi ← hi.nat?
+    match ip with
+    | [a, b, c, d] =>
+      let r := sweep a b c d lo (hi - lo) 0 0
+      pure s!"({r.1} {r.2})"
+    | _ => none
+  -- oracle: implementation's id for address a, and the address it maps back to
+  | "o-codec", [a, id, back] => do
+    let a ← addr? a; let id ← id.nat?; let back ← addr? back
+    pure (if !decide a.Valid then "bad-input"
+      else if id != idSpec a then "id-is-not-ip:port"
+      else if !(id < 2 ^ 48) then "id-not-48-bit"
+      else if back != a then "round-trip-addr-id-addr"
+      else "ok")
+  -- oracle: implementation's address for an arbitrary u64 id, and the id that address maps to
+  | "o-codec-id", [id, a, id2] => do
+    let id ← id.nat?; let a ← addr? a; let id2 ← id2.nat?
+    pure (if !decide a.Valid then "address-out-of-range"
+      else if idSpec a != id % 2 ^ 48 then "address-is-not-low-48-bits"
+      else if id2 != id % 2 ^ 48 then "round-trip-id-addr-id"
+      else "ok")
+  -- model: the datagrams an actor's log says it sent to the observer addresses (sorted)
+  | "loop-out", [a, obs] => do
+    let a ← actor? a
+    let obs ← obs.listOf? addr?
+    let evs := a.log.map fun e => (match e with
+      | .start t st cs => (Ev.start t st cs : E)
+      | .msg t si src m st cs => .msg t (addrOf src) (77 :: (toString m).toList.map Char.toNat) si st cs
+      | .timeout t si k st cs => .fire t (.timeout k) si st cs
+      | .random t si x st cs => .fire t (.random x) si st cs)
+    -- run the acceptance machine on the log; its `sent` is the prediction
+    let sent ← (match run (relax (cfgOf a.id)) init (expand evs) with
+      | some s => some s.sent
+      | none => none) <|> some [(⟨999, 0, 0, 0, 0⟩, [])]
+    let keys := (sent.filter (fun p => obs.contains p.1 || p.1.o0 == 999)).map fun p => s!"{addrStr p.1}:{bytesStr p.2}"
+    pure (toString (SExp.list ((sortStrs keys).map SExp.atom)))
+  | "o-trace", [acts, psent, precv, obs, tEnd, grace] => do
+    let acts ← acts.listOf? actor?
+    let psent ← psent.listOf? dg?
+    let precv ← precv.listOf? dg?
+    let obs ← obs.listOf? addr?
+    let tEnd ← tEnd.nat?; let grace ← grace.nat?
+    pure (match checkScenario acts psent precv obs tEnd grace with
+      | none => "ok"
+      | some e => e)
   | _, _ => none
+
 end SR.Drv.C17
